@@ -30,18 +30,64 @@ class Session:
     self.counts = {}
     self.last = None
     self.ran = 0
+    self.log = []
+    self.identifying = False
+    self.ident_scope = None
+    self.mutate = False
 
   # ---------------------------------------------------------------- probes
+  def identify(self, fn):
+    """Scope under which a delivered configurable runs: [] = the caller's scope (unscoped)."""
+    gin = self.gin
+    was = self.identifying
+    self.identifying, self.ident_scope = True, None
+    try:
+      with gin.config_scope(['zz_ctx']):
+        fn()
+    except Exception:  # pylint: disable=broad-except
+      pass
+    finally:
+      self.identifying = was
+    seen = self.ident_scope
+    if seen is None:
+      return None
+    return [] if seen == ['zz_ctx'] else seen
+
+  def _mutate(self, v):
+    if isinstance(v, list):
+      for x in v:
+        self._mutate(x)
+      v.append('MUTATED')
+    elif isinstance(v, dict):
+      for x in list(v.values()):
+        self._mutate(x)
+      v['MUTATED'] = 1
+    elif isinstance(v, tuple):
+      for x in v:
+        self._mutate(x)
+
   def _rec(self, oid, sel, params, extra, kw):
+    if self.identifying:
+      if self.ident_scope is None:
+        self.ident_scope = list(self.gin.current_scope())
+      return ProbeResult(sel, -1)
     self.ran += 1
     n = self.counts.get(oid, 0)
     self.counts[oid] = n + 1
-    self.last = {
-        'params': [[k, encode(v, self.gin)] for k, v in params],
-        'extra': [encode(v, self.gin) for v in extra],
-        'kw': [[k, encode(kw[k], self.gin)] for k in sorted(kw)],
-        'scope': list(self.gin.current_scope()),
+    scope = list(self.gin.current_scope())
+    rec = {
+        'params': [[k, encode(v, self.gin, self)] for k, v in params],
+        'extra': [encode(v, self.gin, self) for v in extra],
+        'kw': [[k, encode(kw[k], self.gin, self)] for k in sorted(kw)],
+        'scope': scope,
     }
+    self.last = rec
+    self.log.append((sel, rec))
+    if self.mutate:
+      for _, v in params:
+        self._mutate(v)
+      for v in list(kw.values()):
+        self._mutate(v)
     return ProbeResult(sel, n)
 
   def make_probe(self, op):
@@ -160,10 +206,42 @@ class Session:
       rec['params'].insert(0, [op['_selfname'], op['args'][0]])
     return {'ok': rec}
 
+  def op_ecall(self, op):
+    gin = self.gin
+    ent = self.entries[op['_target']]
+    args = [decode(a, gin) for a in op['args']]
+    if ent.kind != 'fn':
+      args = args[1:]
+    kwargs = {k: decode(v, gin) for k, v in op['kwargs']}
+    self.mutate = bool(op.get('_mutate'))
+    try:
+      with contextlib.ExitStack() as stack:
+        for a in op['enter']:
+          stack.enter_context(gin.config_scope(self.scope_arg(a)))
+        fn = gin.get_configurable(ent.original) if ent.api == 'register' else ent.returned
+        r = fn(*args, **kwargs)
+      if ent.kind != 'fn':
+        return {'res': [ent.selector, self.counts.get(ent.oid, 1) - 1]}
+      return encode(r, gin, self)
+    finally:
+      self.mutate = False
+
+  def log_json(self):
+    by = {}
+    for sel, rec in self.log:
+      by.setdefault(sel, []).append([rec['scope'], rec['params'], rec['extra'], rec['kw']])
+    return sorted([k, v] for k, v in by.items())
+
   def op_bind(self, op):
     gin = self.gin
     form = op.get('_form', 'tuple')
     scope, sel, arg = op['scope'], op['sel'], op['arg']
+    if form == 'macro_text':
+      gin.parse_config(scope + ' = ' + to_literal(op['val']))
+      return None
+    if form == 'macro_key':
+      gin.bind_parameter('%' + scope, decode(op['val'], gin))
+      return None
     if form in ('tuple', 'list'):
       key = (scope, sel, arg) if form == 'tuple' else [scope, sel, arg]
       gin.bind_parameter(key, decode(op['val'], gin))
@@ -311,7 +389,10 @@ class Session:
       elif name == 'hook':
         r = self.op_hook(op)
       elif name == 'finalize':
-        r = self.gin.finalize()
+        with contextlib.ExitStack() as stack:
+          for a in op.get('_enter', []):
+            stack.enter_context(self.gin.config_scope(self.scope_arg(a)))
+          r = self.gin.finalize()
       elif name == 'unlock':
         r = self.op_unlock(op)
       elif name == 'clear':
@@ -333,6 +414,10 @@ class Session:
         r = sorted(k for k, _ in self.cfg._CONSTANTS.items())  # pylint: disable=protected-access
       elif name == 'call':
         return self.op_call(op)
+      elif name == 'ecall':
+        r = self.op_ecall(op)
+      elif name == 'log':
+        r = self.log_json()
       elif name == 'bind':
         r = self.op_bind(op)
       elif name == 'query':
